@@ -1,4 +1,58 @@
-use crate::report::Run;
-use serde_json::Value;
-pub fn run(_run: &mut Run) -> Result<(), String> { Err("not implemented".into()) }
-pub fn replay(_prop: &str, _body: &Value) -> Result<(), String> { Err("MACHINERY: not implemented".into()) }
+//! C05 geometry lookups, C11 hash separation, C17 PieceMoves, C18 BitBoard, C19 coordinates/text.
+
+use crate::bridge::*;
+use crate::report::{Run, Sink, Tally};
+use cozy_chess::*;
+use rayon::prelude::*;
+use refmodel::geom;
+use refmodel::Col;
+use serde_json::{json, Value};
+use std::time::Instant;
+
+mod c05;
+mod c11;
+mod c17;
+mod c18;
+pub mod c19;
+pub use c19::ALPHA40;
+
+pub fn run(run: &mut Run) -> Result<(), String> {
+    match run.prop.as_str() {
+        "C05" => c05::run(run),
+        "C11" => c11::run(run),
+        "C17" => c17::run(run),
+        "C18" => c18::run(run),
+        "C19" => c19::run(run),
+        _ => unreachable!(),
+    }
+    Ok(())
+}
+
+pub fn replay(prop: &str, body: &Value) -> Result<(), String> {
+    let local = Sink::new(prop, 0);
+    let mut t = Tally::default();
+    let case = &body["case"];
+    match prop {
+        "C05" => c05::replay(case, &local, &mut t)?,
+        "C11" => c11::replay(case, &local, &mut t)?,
+        "C17" => c17::replay(case, &local, &mut t)?,
+        "C18" => c18::replay(case, &local, &mut t)?,
+        "C19" => c19::replay(case, &local, &mut t)?,
+        _ => unreachable!(),
+    }
+    let monitor = body["monitor"].as_str().unwrap_or("");
+    for v in local.all_violations() {
+        if v.monitor == monitor {
+            return Err(format!("[{}] {}", v.monitor, v.detail));
+        }
+    }
+    Ok(())
+}
+
+pub(crate) fn hex(x: u64) -> String {
+    format!("{:#018x}", x)
+}
+pub(crate) fn unhex(v: &Value) -> Result<u64, String> {
+    let s = v.as_str().ok_or("MACHINERY: expected hex string")?;
+    u64::from_str_radix(s.trim_start_matches("0x"), 16).map_err(|e| format!("MACHINERY: {}", e))
+}
